@@ -43,7 +43,7 @@ func init() {
 			"passphrase classes: empty, 1 char, ASCII, 1 KiB, 64 and 65 bytes, non-ASCII with NFC/NFD spellings, embedded NUL, trailing NUL, trailing blank; " +
 			"formats: v3-scrypt written by keystore.EncryptKey, and v3-scrypt / v3-pbkdf2 / v1-AES-CBC / v3 with leading-zero-stripped secret written by the independent writer), PRNG only chooses the values. " +
 			"Leg 'file' tries every near-miss passphrase and EVERY single-character alteration of every listed field at DecryptKey; leg 'store' drives a scratch KeyStore directory " +
-			"(NewAccount, ImportECDSA, Unlock+SignHash, SignHashWithPassphrase, Export, Import, Update, Delete, reopen) with near-miss passphrases and sampled alterations of the file on disk; leg 'kdf' repeats the file oracle at realistic KDF costs. " +
+			"(NewAccount, ImportECDSA, Unlock+SignHash, SignHashWithPassphrase, Export, Import, Update, Delete, reopen; plus wrong passphrases and an altered file against an account that is currently unlocked, indefinitely and timed) with near-miss passphrases and sampled alterations of the file on disk; leg 'kdf' repeats the file oracle at realistic KDF costs. " +
 			"A case is non-trivial when the right passphrase recovered the identical key, at least one near-miss passphrase was tried and at least one alteration of each of ciphertext, mac, salt and iv was evaluated; distinct = (scalar, passphrase, format).",
 		Legs: func(tier string) []fw.Leg {
 			// watchdog only: the thorough children need ~10 CPU-minutes each and the
@@ -72,6 +72,7 @@ func init() {
 				"store_newaccount_checked": 16, "store_importecdsa_checked": 16, "store_preplaced_pbkdf2": 16, "store_preplaced_v1": 16,
 				"store_unlock_sign_signer_checked": 200, "store_signwithpass_signer_checked": 100, "store_export_checked": 60, "store_import_checked": 60,
 				"store_update_checked": 60, "store_reopen_checked": 60, "store_nearmiss_ops": 500, "store_tamper_ops": 5000, "store_plain_roundtrip": 16,
+				"store_while_unlocked_indefinitely_nearmiss_tried": 600, "store_while_unlocked_timed_nearmiss_tried": 600, "store_while_unlocked_altered_tried": 200, "store_lock_checked": 400,
 				"kdf_light_scrypt": 2, "kdf_pbkdf2_262144": 2, "kdf_standard_scrypt": 1,
 			}
 		},
